@@ -162,7 +162,7 @@ func cmdFunc(args []string) {
 func solveFunc(fr *FuncResult, opts SolveOpts, only string) []OblResult {
 	var idxs []int
 	for i, f := range fr.Facts {
-		if f.Oblig && (only == "" || strings.Contains(f.Name, only)) {
+		if f.Oblig && (only == "" || strings.Contains(f.Name, only) || (strings.HasPrefix(only, "~") && strings.Contains(f.Info, only[1:]))) {
 			idxs = append(idxs, i)
 		}
 	}
